@@ -65,6 +65,16 @@ impl MemoryArea {
         self.length
     }
 
+    /// Whether `address` lies inside this area. Does not overflow for areas that end at 2^64.
+    fn contains(&self, address: u64) -> bool {
+        address >= self.start && address - self.start < self.length
+    }
+
+    /// Whether `length` bytes starting at `address` (which must lie inside this area) end inside this area.
+    fn fits(&self, address: u64, length: u64) -> bool {
+        length <= self.length - (address - self.start)
+    }
+
     pub fn to_string_ident(&self, i: usize) -> String {
         let mut s = String::new();
 
@@ -165,12 +175,12 @@ impl Axecutor {
             .iter()
             .find(|area| {
                 // Start address is in range of memory area
-                area.start <= address && address < area.start + area.length
+                area.contains(address)
             })
             .ok_or_else(|| self.collect_mem_error_hints(address, length, "Read".to_string()))?;
 
         // Make sure it's in range before doing the slice access below
-        if address + length > area.start + area.length {
+        if !area.fits(address, length) {
             return Err(self.collect_mem_error_hints(address, length, "Read".to_string()));
         }
 
@@ -244,7 +254,7 @@ impl Axecutor {
             .state
             .memory
             .iter()
-            .find(|area| area.start <= address && address < area.start + area.length)
+            .find(|area| area.contains(address))
             .ok_or_else(|| {
                 self.collect_mem_error_hints(address, 15, "Read executable".to_string())
             })?;
@@ -275,10 +285,7 @@ impl Axecutor {
     fn collect_mem_error_hints(&self, address: u64, length: u64, operation: String) -> AxError {
         // check if start or end address is within any of the memory areas
         for area in &self.state.memory {
-            if address >= area.start
-                && address < area.start + area.length
-                && address + length > area.start + area.length
-            {
+            if area.contains(address) && !area.fits(address, length) {
                 return AxError::from(format!(
                     "Memory {} of length {} at address {:#x} over end of memory area {} (start {:#x}, length {})",
                     operation.to_lowercase(),
@@ -295,7 +302,11 @@ impl Axecutor {
         }
 
         for area in &self.state.memory {
-            if address + length > area.start && address + length <= area.start + area.length {
+            let end = match address.checked_add(length) {
+                Some(end) => end,
+                None => break,
+            };
+            if end > area.start && area.contains(end - 1) {
                 return AxError::from(format!(
                     "Memory {} of length {} at address {:#x} before start of memory area {} (start {:#x}, length {})",
                     operation.to_lowercase(),
@@ -385,7 +396,7 @@ impl Axecutor {
             .state
             .memory
             .iter_mut()
-            .find(|area| area.start <= address && address < area.start + area.length)
+            .find(|area| area.contains(address))
         {
             Some(area) => area,
             None => {
@@ -398,7 +409,7 @@ impl Axecutor {
         };
 
         // Range check before doing the copy_from_slice below
-        if address + data.len() as u64 > area.start + area.length {
+        if !area.fits(address, data.len() as u64) {
             return Err(self.collect_mem_error_hints(
                 address,
                 data.len() as u64,
